@@ -331,14 +331,15 @@ prop("C14", [
          "413, within => served and never 413. time: one case = (header,body) time-out pair x stall point (after "
          "connect, inside request line, inside headers, after headers, inside body) x stall {T-500, T, T+500, T+1000 ms} "
          "x scan phase {0,250 ms} under virtual time in 250 ms ticks; stall <= T => 200 and never a 408 at or before "
-         "T; stall >= T+500 ms => 408, handler not run, connection closed. time2: two connections on the one worker, "
+         "T; stall >= T+500 ms => 408, handler not run, connection closed; the same grid for the second request of a "
+         "keep-alive connection whose first request was served 750 ms after connect. time2: two connections on the one worker, "
          "each stalled at its own point (quick: after connect / inside headers / inside body; thorough: all five), the "
          "second opened 0/250/500 ms after the first, 3 time-out pairs: each connection gets its 408 within one scan "
          "period (500 ms) after its own applicable time-out counted from its own start and never earlier; executions = "
          "connections served / two-connection runs; non-trivial = multi-read deliveries and all time cases",
     assumptions=COMMON_ASSUME + ["time is virtual (clock_gettime / timerfd interposed); the 500 ms idle scan of the "
-                                 "endpoint is driven by the virtual clock", "timing of the first request on a connection "
-                                 "only (the statement's 'start of that request' is the connection's start there)"],
+                                 "endpoint is driven by the virtual clock", "the first and the second request of a connection are timed (start of the "
+                                 "first = accept, start of the second = completion of the first, per the property's anchor)"],
     bounds={"quick": "as listed (3-read splits for limit 64 only)", "thorough": "3-read splits for both limits"})
 
 prop("C09", [
